@@ -5,6 +5,7 @@
 From Coq Require Import List NArith Bool.
 From Feox Require Import Model.Device Proofs.CrashProofs.
 From Feox Require Gen.Constants Model.Bytes Model.Codec Model.FreeSpace Model.MetaJournal Model.Recovery Proofs.ScanAcceptsProofs Proofs.ScanQuiescentProofs.
+From Feox Require Proofs.ReplayRollbackProofs.
 Import ListNotations.
 Local Open Scope N_scope.
 
@@ -117,3 +118,49 @@ Print Assumptions reopening_a_file_at_rest_changes_nothing.
 Example replay_example :
   replay_start (mkdisk (SValid 4 JClear) (SValid 5 (JActive [1%nat])) [CGen (mkgen 7 100 1); CJunk; CMarker]) true 5 [1%nat].
 Proof. repeat split; simpl; auto. Qed.
+
+(* ---- the same for a crash inside a write batch (Proofs/ReplayRollbackProofs.v): a file at rest
+   whose journal is ACTIVE and names one record's extent.  The first open replays the journal and
+   leaves a file at rest behind (C03: crashed_batch_is_rolled_back); opening THAT file again -- any
+   number of times -- writes nothing and gives the same answer: its metadata copies are where they
+   were, its journal decodes to clear (the CLEAR record of generation + 1 in the other slot wins
+   over the ACTIVE one), its data area is a quiescent layout ---- *)
+
+Theorem recovery_from_a_crashed_batch_is_idempotent :
+  forall c img m jgen jslot its1 r its2 k,
+  Recovery.c_ro c = false -> Recovery.c_now c = None ->
+  (17 <= length img)%nat ->
+  let total := N.of_nat (length img) in
+  let mb := if MetaJournal.select_meta (Recovery.nth_block img 0) (Recovery.nth_block img (N.to_nat Constants.FEOX_METADATA_BACKUP_BLOCK))
+            then Recovery.nth_block img (N.to_nat Constants.FEOX_METADATA_BACKUP_BLOCK) else Recovery.nth_block img 0 in
+  let v := MetaJournal.m_version m in
+  let s := Constants.FEOX_DATA_START_BLOCK + ScanQuiescentProofs.isum v its1 in
+  let n := ScanAcceptsProofs.need_of v r in
+  Bytes.list_eqb (firstn 8 mb) MetaJournal.SIGNATURE = true -> MetaJournal.decode_meta mb = Some m -> Codec.has_token v = true ->
+  MetaJournal.decode_journal (Recovery.slot_bytes img 0) (Recovery.slot_bytes img 1) total = Some (jgen, jslot, [(s, n)]) ->
+  jgen < Recovery.U64MAX ->
+  total * Constants.FEOX_BLOCK_SIZE < FreeSpace.U64 ->
+  Forall (ScanQuiescentProofs.item_ok v) (its1 ++ ScanQuiescentProofs.IRec r :: its2) -> ScanAcceptsProofs.distinct_keys (ScanQuiescentProofs.recs_of (its1 ++ its2)) ->
+  skipn (N.to_nat Constants.FEOX_DATA_START_BLOCK) img = ScanQuiescentProofs.ilayout v Constants.FEOX_DATA_START_BLOCK (its1 ++ ScanQuiescentProofs.IRec r :: its2) ->
+  let img' := snd (Recovery.open_image c img) in
+  ScanQuiescentProofs.reopen c k img' = Recovery.open_image c img' /\ snd (Recovery.open_image c img') = img'.
+Proof. exact ReplayRollbackProofs.recovery_from_a_crashed_batch_is_idempotent. Qed.
+Check recovery_from_a_crashed_batch_is_idempotent :
+  forall c img m jgen jslot its1 r its2 k,
+  Recovery.c_ro c = false -> Recovery.c_now c = None ->
+  (17 <= length img)%nat ->
+  let total := N.of_nat (length img) in
+  let mb := if MetaJournal.select_meta (Recovery.nth_block img 0) (Recovery.nth_block img (N.to_nat Constants.FEOX_METADATA_BACKUP_BLOCK))
+            then Recovery.nth_block img (N.to_nat Constants.FEOX_METADATA_BACKUP_BLOCK) else Recovery.nth_block img 0 in
+  let v := MetaJournal.m_version m in
+  let s := Constants.FEOX_DATA_START_BLOCK + ScanQuiescentProofs.isum v its1 in
+  let n := ScanAcceptsProofs.need_of v r in
+  Bytes.list_eqb (firstn 8 mb) MetaJournal.SIGNATURE = true -> MetaJournal.decode_meta mb = Some m -> Codec.has_token v = true ->
+  MetaJournal.decode_journal (Recovery.slot_bytes img 0) (Recovery.slot_bytes img 1) total = Some (jgen, jslot, [(s, n)]) ->
+  jgen < Recovery.U64MAX ->
+  total * Constants.FEOX_BLOCK_SIZE < FreeSpace.U64 ->
+  Forall (ScanQuiescentProofs.item_ok v) (its1 ++ ScanQuiescentProofs.IRec r :: its2) -> ScanAcceptsProofs.distinct_keys (ScanQuiescentProofs.recs_of (its1 ++ its2)) ->
+  skipn (N.to_nat Constants.FEOX_DATA_START_BLOCK) img = ScanQuiescentProofs.ilayout v Constants.FEOX_DATA_START_BLOCK (its1 ++ ScanQuiescentProofs.IRec r :: its2) ->
+  let img' := snd (Recovery.open_image c img) in
+  ScanQuiescentProofs.reopen c k img' = Recovery.open_image c img' /\ snd (Recovery.open_image c img') = img'.
+Print Assumptions recovery_from_a_crashed_batch_is_idempotent.
